@@ -30,7 +30,7 @@ set_option linter.unusedVariables false
 set_option linter.unusedSectionVars false
 namespace OjgVerif.Sen
 open OjgVerif
-open OjgVerif.Json (Num BigLimit isDigitB dval natOf fmtNat Parts ExpPart render sgnTxt fracTxt expTxt Dig Lead acc accInt
+open OjgVerif.Json (Num BigLimit isDigitB dval natOf fmtNat fmtNatAux Parts ExpPart render sgnTxt fracTxt expTxt Dig Lead acc accInt
   accFrac accExp accSign passThru signStep)
 
 /-! ## single steps of the number modes (sen.Parser, default configuration, reference tables) -/
@@ -600,5 +600,119 @@ theorem edge_run_neg (k : Nat) (hk : k ≤ 8) (st : St) (f : Fast) (p : Pos) (re
   · show (s3.num.addDigit (UInt8.ofNat (48 + k))).asNum.toJV = _
     rw [num_of_NumOK s3.num true hn3]
     exact asNum_edge_neg _ _ k hk
+
+/-! ## non-negative integers of any size up to the uint64 range -/
+
+/-- the fuel of `fmtNatAux` does not matter once it exceeds the number -/
+theorem fmtNatAux_fuel : ∀ (f1 f2 n : Nat) (acc : Bytes), n < f1 → n < f2 → fmtNatAux f1 n acc = fmtNatAux f2 n acc := by
+  intro f1
+  induction f1 with
+  | zero => intro f2 n acc h; omega
+  | succ k ih =>
+    intro f2 n acc h1 h2
+    obtain ⟨m, rfl⟩ : ∃ m, f2 = m + 1 := ⟨f2 - 1, by omega⟩
+    unfold fmtNatAux
+    by_cases hn : n < 10
+    · simp [hn]
+    · simp only [hn, ↓reduceIte]
+      exact ih m (n / 10) _ (by omega) (by omega)
+
+theorem fmtNatAux_acc : ∀ (f n : Nat) (acc : Bytes), n < f → fmtNatAux f n acc = fmtNatAux f n [] ++ acc := by
+  intro f
+  induction f with
+  | zero => intro n acc h; omega
+  | succ k ih =>
+    intro n acc h
+    unfold fmtNatAux
+    by_cases hn : n < 10
+    · simp [hn]
+    · simp only [hn, ↓reduceIte]
+      rw [ih (n / 10) (UInt8.ofNat (48 + n % 10) :: acc) (by omega), ih (n / 10) [UInt8.ofNat (48 + n % 10)] (by omega)]
+      simp [List.append_assoc]
+
+/-- `strconv.FormatUint`: the last digit is `n % 10`, what stands before it is `n / 10` -/
+theorem fmtNat_snoc (n : Nat) (h : 10 ≤ n) : fmtNat n = fmtNat (n / 10) ++ [UInt8.ofNat (48 + n % 10)] := by
+  have hn : ¬ n < 10 := by omega
+  show fmtNatAux (n + 1) n [] = fmtNatAux (n / 10 + 1) (n / 10) [] ++ _
+  rw [show fmtNatAux (n + 1) n [] = fmtNatAux n (n / 10) [UInt8.ofNat (48 + n % 10)] by
+    conv => lhs; unfold fmtNatAux
+    simp [hn]]
+  rw [fmtNatAux_acc n (n / 10) _ (by omega), fmtNatAux_fuel n (n / 10 + 1) (n / 10) [] (by omega) (by omega)]
+
+/-- `FillBig` of a non-negative integer held exactly -/
+theorem fillBig_pos (n : Num) (v : Nat) (h : NumOK n false v) : n.fillBig = { n with big := fmtNat v } := by
+  obtain ⟨h1, h2, h3, h4, h5⟩ := h
+  have hd : ¬ ((1 : UInt64) < n.div) := by rw [h3]; decide
+  have he : ¬ ((0 : UInt64) < n.exp) := by rw [h4]; decide
+  unfold Num.fillBig
+  simp only [h1, h2, h5, hd, he, ↓reduceIte, List.nil_append, Bool.false_eq_true]
+
+/-- a digit inside the integer fast loop once `BigLimit <= I`: the number goes over to text -/
+theorem step_fastBig (st : St) (f : Fast) (d : UInt8) (hm : st.mode = .digit) (hf : f.nlSkipping = false)
+    (hfast : f.inFast = true) (hd : isDigitB d) (v : Nat) (hn : NumOK st.num false v) (hv : 922337203685477580 ≤ v) :
+    ∃ s', (∀ l, step refTables {} st f d l = .ok (s', { inFast := false, tokFast := f.tokFast, nlSkipping := false }, false)) ∧
+      s'.mode = .digit ∧ s'.num = { st.num with big := fmtNat v ++ [d] } ∧ s'.starts = st.starts ∧ s'.stack = st.stack ∧
+      s'.docs = st.docs ∧ s'.plus = st.plus := by
+  have hact := digit_numDigit d hd
+  have hle : BigLimit ≤ st.num.i := by
+    rw [UInt64.le_iff_toNat_le, hn.2.1]
+    have : BigLimit.toNat = 922337203685477580 := rfl
+    omega
+  have hfb := fillBig_pos st.num v hn
+  have hne : 0 < (fmtNat v).length := by
+    cases h : fmtNat v with
+    | nil => exact absurd h (Json.fmtNat_ne_nil v)
+    | cons _ _ => simp
+  have hadd : st.num.fillBig.addDigit d = { st.num with big := fmtNat v ++ [d] } := by
+    rw [hfb]
+    simp [Num.addDigit, hne]
+  let ft : List Char := if st.num.i.toNat * 10 + (d - 48).toNat ≤ 9223372036854775807 then (st.addFeat 'i').feat else st.feat
+  let s' : St := { st with num := st.num.fillBig.addDigit d, feat := ft }
+  refine ⟨s', ?_, hm, hadd, rfl, rfl, rfl, rfl⟩
+  intro l
+  simp [step, stepCore, stepAct, stepActP, nextFast, deliver, refTables, expectedFin, hm, hf, hact, hle, hfast, s', ft]
+
+/-- **non-negative integers from the limit of the fast loop up to (beyond) the uint64 range** come back as a
+`json.Number` with the same digits -/
+theorem edge_run_posN (n : Nat) (hn : 9223372036854775800 ≤ n ∧ n < 92233720368547758000) (st : St) (f : Fast) (p : Pos)
+    (rest : Bytes) (hm : st.mode = .value) (hf : f.nlSkipping = false) :
+    ∃ st' f' p', runBytes refTables {} st f p (fmtNat n ++ rest) = runBytes refTables {} st' f' p' rest ∧
+      st'.mode = .digit ∧ st'.num.asNum.toJV = .big (fmtNat n) ∧ st'.starts = st.starts ∧
+      st'.stack = st.stack ∧ st'.docs = st.docs ∧ st'.plus = st.plus ∧ f'.nlSkipping = false := by
+  have hsn := fmtNat_snoc n (by omega)
+  have hq : 0 < n / 10 := by omega
+  obtain ⟨d0, ds, he, hds, _, h19⟩ := Writer.fmtNat_shape (n / 10)
+  rw [fmtNat_eq] at he
+  have hd19 := h19 hq
+  have hnat : natOf (d0 :: ds) = n / 10 := by rw [← he]; exact Json.natOf_fmtNat _
+  obtain ⟨hdd, _⟩ := d19_digit d0 hd19
+  have hdsB : ∀ x ∈ ds, isDigitB x := by
+    intro x hx
+    simp only [List.all_eq_true] at hds
+    exact Json.isDigitB_of_isDigit x (hds x hx)
+  have hc : isDigitB (UInt8.ofNat (48 + n % 10)) := by
+    have := Writer.digit_toNat (n % 10) (by omega)
+    unfold isDigitB; omega
+  let s1 : St := { st with mode := .digit, num := { st.num.reset with i := (d0 - 48).toUInt64 } }
+  have e1 : ∀ l, step refTables {} st f d0 l =
+      .ok (s1, { inFast := true, tokFast := f.tokFast, nlSkipping := false }, false) :=
+    fun l => step_valDigit st f d0 l hm hf hd19
+  have hok1 : NumOK s1.num false (dval d0) := ⟨rfl, Json.digit_toUInt64 d0 hdd, rfl, rfl, rfl⟩
+  obtain ⟨f2, p2, hrun2, hf2, hn2, hi2, _⟩ := digits_run_acc ds s1 { inFast := true, tokFast := f.tokFast, nlSkipping := false }
+    (p.next false) (UInt8.ofNat (48 + n % 10) :: rest) false (dval d0) rfl rfl hdsB hok1
+    (by rw [natOf_cons_foldl', hnat]; omega)
+  rw [natOf_cons_foldl', hnat] at hn2
+  obtain ⟨n2, hn2def⟩ : ∃ n2, n2 = ds.foldl Num.addDigit s1.num := ⟨_, rfl⟩
+  rw [← hn2def] at hrun2 hn2
+  obtain ⟨s3, hstep3, m3, n3, a3, b3, c3, d3⟩ := step_fastBig ({ s1 with num := n2 } : St) f2
+    (UInt8.ofNat (48 + n % 10)) rfl hf2 (by rw [hi2]) hc (n / 10) hn2 (by omega)
+  refine ⟨s3, { inFast := false, tokFast := f2.tokFast, nlSkipping := false }, p2.next false, ?_, m3, ?_, a3, b3, c3, d3, rfl⟩
+  · rw [hsn, he]
+    simp only [List.cons_append, List.append_assoc, List.nil_append, List.singleton_append]
+    rw [runBytes_cons_ok {} e1, hrun2]
+    exact runBytes_cons_ok {} hstep3
+  · rw [n3, hsn]
+    have hne : 0 < (fmtNat (n / 10) ++ [UInt8.ofNat (48 + n % 10)]).length := by simp
+    simp [Num.asNum, hne, Json.NumRes.toJV]
 
 end OjgVerif.Sen
